@@ -441,29 +441,48 @@ def check_broadcast_faults(progs: List[tuple]) -> Dict[str, Any]:
 
 
 def units_for(tier: str) -> List[Any]:
-    if tier == 'quick':
-        progs = list(programs.linear_programs(2, ('S', 'Y1'), ('cont', 'wait'), ('ret', 'raise')))
-        progs += list(programs.linear_programs(1, ('G',), (), ('ret', 'raise')))
-    else:
-        progs = list(programs.linear_programs(2, ('S', 'Y1', 'G'), ('cont', 'wait'), ('ret', 'raise')))
-    if tier != 'quick':
-        progs += list(programs.linear_programs(3, ('S', 'Y1'), ('cont', 'wait'), ('ret',), min_len=3))
+    progs = list(programs.linear_programs(2, ('S', 'Y1'), ('cont', 'wait'), ('ret', 'raise')))
+    progs += list(programs.linear_programs(1, ('G',), (), ('ret', 'raise')))
     return progs
+
+
+def larger_programs() -> List[Any]:
+    """Thorough tier only: two-step programs with gates, three-step programs."""
+    base = set(units_for('quick'))
+    progs = [p for p in programs.linear_programs(2, ('S', 'Y1', 'G'), ('cont', 'wait'), ('ret', 'raise')) if p not in base]
+    progs += list(programs.linear_programs(3, ('S', 'Y1'), ('cont', 'wait'), ('ret',), min_len=3))
+    return progs
+
+
+def both_alphabets(progs: List[Any]) -> List[Any]:
+    return [(p, None, wrapped) for p in progs for wrapped in (False, True)] + \
+           [(p, None, wrapped, 'remote', None, 'notext') for p in progs for wrapped in (False, True)]
+
+
+PART1_RULE = ('(1) every placement of <=K control messages from ' + repr(MESSAGES) + ' and, as separate units, from the '
+              'text-less ' + repr(NOTEXT_MESSAGES) + ' (RPC through rpc_send, broadcasts through '
+              'RemoteProcessThreadController.*_all) and <=J early gate completions between any two loop callbacks, for a '
+              'plain in-process communicator and for the same wrapped in LoopCommunicator: handler fidelity, replies, '
+              'announcements, unroutability after termination; non-trivial = a message sent while the ready queue was not empty')
+PART1_ASSUMPTIONS = ['the communicator thread is modelled by loop callbacks landing at arbitrary queue positions',
+                     'an in-process communicator that calls broadcast subscribers positionally, as the RabbitMQ one does']
+
+
+def describe_part1(u: Any) -> Dict[str, Any]:
+    return {'program': programs.describe(u[0]), 'wrapped': u[2], 'alphabet': u[5] if len(u) > 5 else 'text'}
 
 
 def run_check(tier: str, seed: int, workers: Any) -> Dict[str, Any]:
     progs = units_for(tier)
     budget = {'K': 2, 'J': 1} if tier == 'quick' else {'K': 3, 'J': 1}
-    part1 = runner.run_explorer(
-        factory, (), [(p, None, wrapped) for p in progs for wrapped in (False, True)]
-        + [(p, None, wrapped, 'remote', None, 'notext') for p in progs for wrapped in (False, True)], budget, seed, workers,
-        rule='(1) every placement of <=K control messages from ' + repr(MESSAGES) + ' and, as separate units, from the text-less '
-             + repr(NOTEXT_MESSAGES) + ' (RPC through rpc_send, broadcasts through RemoteProcessThreadController.*_all) and <=J early gate completions between any two loop callbacks, for '
-             'a plain in-process communicator and for the same wrapped in LoopCommunicator: handler fidelity, replies, '
-             'announcements, unroutability after termination; non-trivial = a message sent while the ready queue was not empty',
-        assumptions=['the communicator thread is modelled by loop callbacks landing at arbitrary queue positions',
-                     'an in-process communicator that calls broadcast subscribers positionally, as the RabbitMQ one does'],
-        bounds=dict(budget, program_len=2 if tier == 'quick' else 3), describe=lambda u: {'program': programs.describe(u[0]), 'wrapped': u[2], 'alphabet': u[5] if len(u) > 5 else 'text'})
+    part1 = runner.run_explorer(factory, (), both_alphabets(progs), budget, seed, workers, rule=PART1_RULE,
+                                assumptions=PART1_ASSUMPTIONS, bounds=dict(budget, program_len=2), describe=describe_part1)
+    parts = [part1]
+    if tier != 'quick':
+        parts.append(runner.run_explorer(
+            factory, (), both_alphabets(larger_programs()), {'K': 2, 'J': 1}, seed, workers,
+            rule='(1, larger programs) the same for two-step programs with gates and three-step programs, K=2',
+            assumptions=[], bounds={'K': 2, 'J': 1, 'program_len': 3}, describe=describe_part1))
     small = list(programs.linear_programs(2, ('S', 'Y1', 'G'), ('cont', 'wait'), ('ret',)))
     part2 = runner.run_explorer(
         twin_factory, (), [(p, None, wrapped) for p in small for wrapped in (False, True)]
@@ -481,7 +500,7 @@ def run_check(tier: str, seed: int, workers: Any) -> Dict[str, Any]:
         rule='(1b) the same with the coroutine based RemoteProcessController (pause_process / play_process / kill_process / '
              'get_status awaited in loop tasks) mixed with a plain rpc play', assumptions=[], bounds={'K': 2},
         describe=lambda u: {'program': programs.describe(u[0]), 'wrapped': u[2], 'controller': 'async'})
-    out = runner.merge([part1, part1b, part2])
+    out = runner.merge(parts + [part1b, part2])
     part3 = check_broadcast_faults(small)
     out['coverage']['evaluations'] += part3['n']
     out['coverage']['traces_validated_against_impl'] += part3['n']
